@@ -31,7 +31,11 @@ def setup(ctx):
     w = ctx.worker
     dns_addr = "127.0.53.%d" % (10 + w)
     dns = dnsstub.DnsStub(dns_addr)
-    env = Env(ctx, conf="connect_timeout 3 seconds\nforward_max_tries 6\n", cache_mem="0 MB", dns=dns_addr)
+    # odd workers let non-retriable requests reuse idle persistent connections (a documented directive), so the
+    # "pconn race" path -- zero-sized reply on a reused connection -- is exercised for non-idempotent methods too
+    reuse = "server_pconn_for_nonretriable allow all\n" if w % 2 == 1 else ""
+    env = Env(ctx, conf="connect_timeout 3 seconds\nforward_max_tries 6\n" + reuse, cache_mem="0 MB", dns=dns_addr)
+    env.reuse = bool(reuse)
     env.dns = dns
     # three origin stubs on distinct loopback addresses, same port
     env.origins = []
@@ -126,7 +130,7 @@ def execute(env, sc):
             mw = c.read_response(b"GET", timeout=15)
             prewarmed = mw is not None and mw.status == 200
             if prewarmed:
-                r.label("prewarmed-pconn")
+                r.label("prewarmed-pconn" + ("-reusable-for-nonretriable" if env.reuse else ""))
         body = sc["body"]
         if sc["method"] in ("GET", "DELETE") and body is not None:
             body = None
